@@ -11,7 +11,7 @@
     [A] of the heap holds the bytes of the model buffer. *)
 From Coq Require Import List ZArith NArith Lia Bool.
 From Coq Require Import ZifyBool.
-From GL Require Import lib.GoLite model.Blocks proofs.C17_Bytes proofs.C17_Inv.
+From GL Require Import lib.GoLite model.Blocks spec.AllocSet proofs.C17_Bytes proofs.C17_Inv proofs.C17_Blocks.
 From GLGEN Require Import BL_GenVocab Gen_blocks C17_GenFn.
 Import ListNotations.
 Open Scope Z_scope.
@@ -23,23 +23,14 @@ Ltac bk_cbn :=
   cbn [Gen.Blocks_blkSize Gen.Blocks_blksInSegm Gen.Blocks_segments Gen.Blocks_freeIdx Gen.Blocks_bts
        Gen.Blocks_available blkSize blksInSegm segments freeIdx available bts fst snd] in *.
 
-Section BlocksAlloc.
+Section BlocksHeap.
 
-Variable bts_Buffer : Z -> Z -> Z -> M (gslice * error).
-Variable hd : Z.
 Variable A : nat.
 
 (* array A of the heap holds the bytes of the model buffer *)
 Definition brel (h : heap) (buf : buffer) : Prop :=
   (A < length h)%nat /\ zlen (arr_get h A) = bsize buf /\ 0 <= bsize buf < 9223372036854775808 /\
   forall off, 0 <= off < bsize buf -> znth (arr_get h A) off = Z.of_N (bget buf off).
-
-Hypothesis buffer_spec : forall h buf offs size, brel h buf ->
-  bts_Buffer hd offs size h =
-  match buf_slice buf offs size with
-  | None => Ok ((nil_slice, Err), h)
-  | Some (base, len) => Ok ((mkSl A base len (bsize buf - base), ENil), h)
-  end.
 
 Lemma window_facts h buf offs size base len : brel h buf -> 0 <= size ->
   buf_slice buf offs size = Some (base, len) ->
@@ -74,11 +65,26 @@ Proof.
   - rewrite bget_bset_other by lia. apply Hb. exact Ho.
 Qed.
 
+End BlocksHeap.
+
+Section BlocksAlloc.
+
+Variable bts_Buffer : Z -> Z -> Z -> M (gslice * error).
+Variable hd : Z.
+Variable A : nat.
+
+Hypothesis buffer_spec : forall h buf offs size, brel A h buf ->
+  bts_Buffer hd offs size h =
+  match buf_slice buf offs size with
+  | None => Ok ((nil_slice, Err), h)
+  | Some (base, len) => Ok ((mkSl A base len (bsize buf - base), ENil), h)
+  end.
+
 (* the generated record in heap h represents the model state *)
 Definition grel (h : heap) (g : Gen.Blocks) (b : blocks) : Prop :=
   Gen.Blocks_blkSize g = blkSize b /\ Gen.Blocks_blksInSegm g = blksInSegm b /\
   Gen.Blocks_segments g = segments b /\ Gen.Blocks_freeIdx g = freeIdx b /\
-  Gen.Blocks_available g = available b /\ Gen.Blocks_bts g = hd /\ brel h (bts b).
+  Gen.Blocks_available g = available b /\ Gen.Blocks_bts g = hd /\ brel A h (bts b).
 
 (* the counters fit their Go types *)
 Definition counters_ok (b : blocks) : Prop :=
@@ -117,19 +123,19 @@ Proof.
   destruct Hrange as [?|(Ho & Hf)]; [lia|].
   rewrite E1, E6. pose proof (buffer_spec h (bts b) offs (blkSize b) B) as HB.
   destruct (buf_slice (bts b) offs (blkSize b)) as [[base len]|] eqn:Es; go_call HB; [|reflexivity].
-  destruct (window_facts h (bts b) offs (blkSize b) base len B G1 Es) as (-> & W0 & W1 & W2 & W3 & W).
+  destruct (window_facts A h (bts b) offs (blkSize b) base len B G1 Es) as (-> & W0 & W1 & W2 & W3 & W).
   cbv beta iota zeta. cbn [is_nil negb].
   destruct ((fidx <? 0) || (len <=? fidx)) eqn:Eo.
   - (* buf[fidx] out of range *) unfold bind. rewrite load_panic by (cbn [s_len]; lia). reflexivity.
   - assert (Hv : (bget (bts b) (offs + fidx) < 256)%N) by apply bget_lt_256.
     assert (Hj : 0 <= Z.of_N bit < 8) by lia.
-    go_step. rewrite (window_load h (bts b) offs len fidx B) by lia.
+    go_step. rewrite (window_load A h (bts b) offs len fidx B) by lia.
     rewrite bit_clear_Z, N2Z.id by exact Hj.
     destruct (bit_is_clear (bget (bts b) (offs + fidx)) bit) eqn:Ecl; [reflexivity|].
-    go_step. rewrite (window_load h (bts b) offs len fidx B) by lia. go_step.
+    go_step. rewrite (window_load A h (bts b) offs len fidx B) by lia. go_step.
     rewrite clear_bit_Z, N2Z.id by exact Hj.
     destruct (clear_bit_spec _ _ Hv Hb8 Ecl) as (Hm & _ & _). unfold clear_bit in Hm.
-    pose proof (window_store h (bts b) offs len fidx _ B W0 ltac:(lia) W2 Hm) as B'.
+    pose proof (window_store A h (bts b) offs len fidx _ B W0 ltac:(lia) W2 Hm) as B'.
     go_run; unfold ret; do 2 eexists; (split; [reflexivity|]); unfold grel; bk_cbn;
       do 6 (split; [first [assumption | reflexivity | lia]|]); exact B'.
 Qed.
@@ -138,7 +144,7 @@ Qed.
 
 (* the innermost loop: the first clear bit of the header byte buf[pos] *)
 Lemma gen_Arrange_loop3 : forall n h buf g freeSegm base len pos j f,
-  brel h buf -> 0 <= base -> 0 <= pos < len -> base + len <= bsize buf ->
+  brel A h buf -> 0 <= base -> 0 <= pos < len -> base + len <= bsize buf ->
   0 <= j -> j + Z.of_nat n = 8 -> (n < f)%nat ->
   -2147483647 <= Gen.Blocks_available g < 2147483647 ->
   0 <= freeSegm * Gen.Blocks_blksInSegm g -> 0 <= pos * 8 ->
@@ -159,10 +165,10 @@ Proof.
   - go_run. replace j with 8 by lia. reflexivity.
   - assert (W : wf_slice h (mkSl A base len (bsize buf - base))).
     { destruct B as (Ba & Bl & Bs & _). unfold wf_slice. cbn [s_arr s_off s_len s_cap]. repeat split; lia. }
-    go_if; [|lia]. repeat go_step. rewrite (window_load h buf base len pos B) by lia.
+    go_if; [|lia]. repeat go_step. rewrite (window_load A h buf base len pos B) by lia.
     rewrite bit_clear_Z by lia.
     destruct (bit_is_clear (bget buf (base + pos)) (Z.to_N j)) eqn:Ecl.
-    + repeat go_step. rewrite (window_load h buf base len pos B) by lia. repeat go_step.
+    + repeat go_step. rewrite (window_load A h buf base len pos B) by lia. repeat go_step.
       rewrite set_bit_Z by lia. cbv beta iota zeta. unfold ret.
       unfold Gen.set_Blocks_available. cbn [Gen.Blocks_blksInSegm]. go_unwrap.
       rewrite Z2N.id by lia. replace (Gen.Blocks_available g + -1) with (Gen.Blocks_available g - 1) by lia.
@@ -173,7 +179,7 @@ Qed.
 
 (* the scan of one header block from position pos *)
 Lemma gen_Arrange_loop2 : forall n h buf g freeSegm base len pos f,
-  brel h buf -> 0 <= base -> 0 <= pos <= len -> base + len <= bsize buf ->
+  brel A h buf -> 0 <= base -> 0 <= pos <= len -> base + len <= bsize buf ->
   (Z.to_nat (len - pos) <= n)%nat -> (Z.to_nat (len - pos) < f)%nat ->
   -2147483647 <= Gen.Blocks_available g < 2147483647 ->
   0 <= Gen.Blocks_freeIdx g -> Gen.Blocks_freeIdx g + (len - pos) < 9223372036854775808 ->
@@ -200,7 +206,7 @@ Proof.
     assert (W : wf_slice h (mkSl A base len (bsize buf - base))).
     { destruct B as (Ba & Bl & Bs & _). unfold wf_slice. cbn [s_arr s_off s_len s_cap]. repeat split; lia. }
     pose proof (bget_lt_256 buf (base + pos)) as Hv.
-    repeat go_step. rewrite (window_load h buf base len pos B) by lia.
+    repeat go_step. rewrite (window_load A h buf base len pos B) by lia.
     set (v := bget buf (base + pos)) in *.
     (* what the rest of the scan does *)
     assert (Hnext : forall h',
@@ -240,7 +246,8 @@ Qed.
    NewBlocks accepts: blksInSegm = 8*blkSize) *)
 Definition geom_ok2 (b : blocks) : Prop :=
   segments b * blksInSegm b + 8 * blkSize b + 8 < 9223372036854775808 /\
-  segments b * ((blksInSegm b + 1) * blkSize b) <= bsize (bts b).   (* the segments lie inside the storage *)
+  segments b * ((blksInSegm b + 1) * blkSize b) <= bsize (bts b) /\   (* the segments lie inside the storage *)
+  (blksInSegm b + 1) * blkSize b < 9223372036854775808 /\ blksInSegm b + 1 < 9223372036854775808.
 
 (* what the loop over the segments does, given what the model's loop does *)
 Definition loop1_post (h : heap) (res : blocks * arr_res)
@@ -250,7 +257,7 @@ Definition loop1_post (h : heap) (res : blocks * arr_res)
   | (b', ArrErr EExhausted) => exists g' fs, o = Ok (Fall (g', fs), h) /\ grel h g' b'
   | (b', ArrErr _) => exists g', o = Ok (Return (g', 0, Err), h) /\ grel h g' b'
   | (_, ArrPanic) => o = GoPanic
-  | (_, ArrOOF) => True
+  | (_, ArrOOF) => False   (* the model's fuel is enough *)
   end.
 
 (* the loop over the segments; [fidx] is the running value of bks.freeIdx *)
@@ -279,13 +286,13 @@ Proof.
     destruct (buf_slice (bts b) (fidx - Z.rem fidx (blkSize b)) (blkSize b)) as [[base len]|] eqn:Es; go_call HB;
       cbv beta iota zeta; cbn [is_nil negb].
     2:{ repeat go_step. unfold ret, loop1_post. exists g. split; [reflexivity|exact R]. }
-    destruct (window_facts h (bts b) _ (blkSize b) base len B G1 Es) as (Eb & W0 & W1 & W2 & W3 & W).
+    destruct (window_facts A h (bts b) _ (blkSize b) base len B G1 Es) as (Eb & W0 & W1 & W2 & W3 & W).
     set (pos := Z.rem fidx (blkSize b)) in *.
     assert (Hpl : 0 <= pos <= len) by lia.
     assert (I1 : 0 <= freeSegm * Gen.Blocks_blksInSegm g) by (rewrite E2; apply Z.mul_nonneg_nonneg; lia).
     assert (I3 : freeSegm * Gen.Blocks_blksInSegm g + len * 8 + 8 < 9223372036854775808).
     { rewrite E2. assert (freeSegm * blksInSegm b <= segments b * blksInSegm b)
-        by (apply Z.mul_le_mono_nonneg_r; lia). destruct G2 as (G2a & G2b). lia. }
+        by (apply Z.mul_le_mono_nonneg_r; lia). destruct G2 as (G2a & G2b & G2c & G2d). lia. }
     pose proof (gen_Arrange_loop2 (Z.to_nat len) h (bts b) g freeSegm base len pos
                   (Z.to_nat len + 2) B W0 Hpl W2 ltac:(lia) ltac:(lia) ltac:(lia) ltac:(lia) ltac:(lia) I1 I3) as L2.
     rewrite E4, E2, E5 in L2. cbn [s_len].
@@ -305,17 +312,15 @@ Proof.
       { assert (0 <= (blksInSegm b + 1) * blkSize b) by (apply Z.mul_nonneg_nonneg; lia).
         assert ((freeSegm + 1) * ((blksInSegm b + 1) * blkSize b) <= segments b * ((blksInSegm b + 1) * blkSize b))
           by (apply Z.mul_le_mono_nonneg_r; lia).
-        destruct G2 as (G2a & G2b).
+        destruct G2 as (G2a & G2b & G2c & G2d).
         split; [apply Z.mul_nonneg_nonneg; lia|lia]. }
       assert (Hss : 0 <= (blksInSegm b + 1) * blkSize b < 9223372036854775808).
-      { split; [apply Z.mul_nonneg_nonneg; lia|]. nia. }
+      { split; [apply Z.mul_nonneg_nonneg; lia|]. destruct G2 as (_ & _ & G2c & _). exact G2c. }
       rewrite E2, E1. go_unwrap. unfold segm_size in *.
-      specialize (IH h b (Gen.mk_Blocks (Gen.Blocks_blkSize g) (Gen.Blocks_blksInSegm g) (Gen.Blocks_segments g)
-                            ((freeSegm + 1) * ((blksInSegm b + 1) * blkSize b)) (Gen.Blocks_bts g) (Gen.Blocks_available g))
-                    (freeSegm + 1) ((freeSegm + 1) * ((blksInSegm b + 1) * blkSize b)) f).
-      unfold grel in IH. bk_cbn.
-      specialize (IH ltac:(repeat split; assumption) G G2 Hav ltac:(lia) Hseg ltac:(lia) ltac:(lia)).
-      exact IH.
+      match goal with |- loop1_post _ _ (iter _ _ (?g2, _) _) =>
+        apply (IH h b g2 (freeSegm + 1) ((freeSegm + 1) * ((blksInSegm b + 1) * blkSize b)) f)
+      end; try assumption; try lia.
+      unfold grel, with_free. bk_cbn. do 6 (split; [first [assumption | reflexivity | lia]|]). exact B.
 Qed.
 
 Theorem gen_ArrangeBlock_refines : forall h g b, grel h g b -> geom_ok b -> geom_ok2 b -> counters_ok b ->
@@ -325,14 +330,15 @@ Theorem gen_ArrangeBlock_refines : forall h g b, grel h g b -> geom_ok b -> geom
   | (b', ArrErr _) =>
       exists g', Gen.Blocks_ArrangeBlock bts_Buffer g h = Ok ((g', 0, Err), h) /\ grel h g' b'
   | (_, ArrPanic) => Gen.Blocks_ArrangeBlock bts_Buffer g h = GoPanic
-  | (_, ArrOOF) => True
+  | (_, ArrOOF) => False   (* the model never runs out of fuel *)
   end.
 Proof.
   intros h g b R G G2 (C1 & C2). pose proof R as (E1 & E2 & E3 & E4 & E5 & E6 & B).
-  pose proof G as (G1 & G3 & G4 & G5 & G6).
+  pose proof G as (G1 & G3 & G4 & G5 & G6). pose proof B as (Ba & Bl & Bs & Bb).
   unfold Gen.Blocks_ArrangeBlock, arrange, segm_size. rewrite E2, E1, E4.
   assert (Hss : 0 <= (blksInSegm b + 1) * blkSize b < 9223372036854775808).
-  { split; [apply Z.mul_nonneg_nonneg; lia|]. nia. }
+  { split; [apply Z.mul_nonneg_nonneg; lia|]. destruct G2 as (_ & _ & G2c & _). exact G2c. }
+  assert (Hb1 : 0 <= blksInSegm b + 1 < 9223372036854775808) by (destruct G2 as (_ & _ & _ & G2d); lia).
   go_unwrap.
   destruct (Z.eqb_spec ((blksInSegm b + 1) * blkSize b) 0) as [Z0|Z0]; [rewrite Z0; reflexivity|].
   destruct (quot_facts (freeIdx b) ((blksInSegm b + 1) * blkSize b) ltac:(lia)) as [Qp _]. specialize (Qp ltac:(lia)).
@@ -349,8 +355,115 @@ Proof.
     all: try (destruct L1 as (g' & E & R'); go_call E; cbv beta iota zeta; unfold ret; exists g'; split; [reflexivity|exact R']).
     destruct L1 as (g' & fs & E & R'). go_call E. cbv beta iota zeta. unfold ret. exists g'. split; [reflexivity|exact R'].
   - unfold bind. rewrite L1. reflexivity.
-  - exact I.
+  - exact L1.
 Qed.
-Print Assumptions gen_ArrangeBlock_refines.
+
+(** The headline of C17 about ArrangeBlock, over the generated code: on a state
+    reachable in the model (and within the machine-integer ranges), a
+    successful ArrangeBlock of the translated code returns the smallest free
+    index, marks exactly that block, and leaves a state that represents the
+    model's next state. *)
+Theorem gen_arrange_fresh : forall page fit h g b g' i e h',
+  reachable page fit b -> grel h g b -> geom_ok b -> geom_ok2 b -> counters_ok b ->
+  Gen.Blocks_ArrangeBlock bts_Buffer g h = Ok ((g', i, e), h') -> e = ENil ->
+  exists b', arrange b = (b', ArrIdx i) /\ grel h' g' b' /\
+    0 <= i < blocks_count b /\ ~ In i (alloc_list b) /\
+    (forall k, 0 <= k < i -> In k (alloc_list b)) /\
+    (forall k, In k (alloc_list b') <-> k = i \/ In k (alloc_list b)) /\
+    available b' = available b - 1.
+Proof.
+  intros page fit h g b g' i e h' HR R G G2 C E ->.
+  pose proof (gen_ArrangeBlock_refines h g b R G G2 C) as HA.
+  destruct (arrange b) as [b' [i'|er| |]] eqn:Ea.
+  - destruct HA as (g2 & h2 & E2 & R2). rewrite E in E2. injection E2 as <- <- <-.
+    destruct (arrange_fresh page fit b b' i HR Ea) as (F1 & F2 & F3 & F4 & _ & F6).
+    exists b'. split; [reflexivity|]. split; [exact R2|]. split; [exact F1|]. split; [exact F2|].
+    split; [exact F3|]. split; [exact F4|exact F6].
+  - destruct HA as (g2 & E2 & _). rewrite E in E2. discriminate.
+  - rewrite E in HA. discriminate.
+  - contradiction.
+Qed.
 
 End BlocksAlloc.
+
+(** * An implementation of bts.Buffer: windows of a heap array, cut at its end
+      (what inmemBtsBuf.Buffer and MMFile.Buffer do) *)
+
+Definition hb_Buffer (A : nat) (_ offs size : Z) : M (gslice * error) := fun h =>
+  let n := zlen (arr_get h A) in
+  if (offs <? 0) || (n <=? offs) then Ok ((nil_slice, Err), h)
+  else Ok ((mkSl A offs (if n <? offs + size then n - offs else size) (n - offs), ENil), h).
+
+Lemma hb_buffer_spec : forall A hd h buf offs size, brel A h buf ->
+  hb_Buffer A hd offs size h =
+  match buf_slice buf offs size with
+  | None => Ok ((nil_slice, Err), h)
+  | Some (base, len) => Ok ((mkSl A base len (bsize buf - base), ENil), h)
+  end.
+Proof.
+  intros A hd h buf offs size (Ba & Bl & Bs & Bb). unfold hb_Buffer, buf_slice. rewrite Bl.
+  destruct ((offs <? 0) || (bsize buf <=? offs)); reflexivity.
+Qed.
+
+(* the closed forms *)
+Theorem gen_ArrangeBlock_refines_hb : forall A hd h g b,
+  grel hd A h g b -> geom_ok b -> geom_ok2 b -> counters_ok b ->
+  match arrange b with
+  | (b', ArrIdx i) =>
+      exists g' h', Gen.Blocks_ArrangeBlock (hb_Buffer A) g h = Ok ((g', i, ENil), h') /\ grel hd A h' g' b'
+  | (b', ArrErr _) =>
+      exists g', Gen.Blocks_ArrangeBlock (hb_Buffer A) g h = Ok ((g', 0, Err), h) /\ grel hd A h g' b'
+  | (_, ArrPanic) => Gen.Blocks_ArrangeBlock (hb_Buffer A) g h = GoPanic
+  | (_, ArrOOF) => False
+  end.
+Proof. intros A hd. exact (gen_ArrangeBlock_refines (hb_Buffer A) hd A (hb_buffer_spec A hd)). Qed.
+Print Assumptions gen_ArrangeBlock_refines_hb.
+
+Theorem gen_FreeBlock_refines_hb : forall A hd h g b idx,
+  grel hd A h g b -> geom_ok b -> counters_ok b ->
+  -9223372036854775808 <= idx < 9223372036854775808 ->
+  match free b idx with
+  | (b', FreeOk) => exists g' h', Gen.Blocks_FreeBlock (hb_Buffer A) g idx h = Ok ((g', ENil), h') /\ grel hd A h' g' b'
+  | (_, FreeErr _) => Gen.Blocks_FreeBlock (hb_Buffer A) g idx h = Ok ((g, Err), h)
+  | (_, FreePanic) => Gen.Blocks_FreeBlock (hb_Buffer A) g idx h = GoPanic
+  end.
+Proof. intros A hd. exact (gen_FreeBlock_refines (hb_Buffer A) hd A (hb_buffer_spec A hd)). Qed.
+Print Assumptions gen_FreeBlock_refines_hb.
+
+Theorem gen_arrange_fresh_hb : forall A hd page fit h g b g' i h',
+  reachable page fit b -> grel hd A h g b -> geom_ok b -> geom_ok2 b -> counters_ok b ->
+  Gen.Blocks_ArrangeBlock (hb_Buffer A) g h = Ok ((g', i, ENil), h') ->
+  exists b', arrange b = (b', ArrIdx i) /\ grel hd A h' g' b' /\
+    0 <= i < blocks_count b /\ ~ In i (alloc_list b) /\
+    (forall k, 0 <= k < i -> In k (alloc_list b)) /\
+    (forall k, In k (alloc_list b') <-> k = i \/ In k (alloc_list b)) /\
+    available b' = available b - 1.
+Proof.
+  intros A hd page fit h g b g' i h' HR R G G2 C E.
+  exact (gen_arrange_fresh (hb_Buffer A) hd A (hb_buffer_spec A hd) page fit h g b g' i ENil h' HR R G G2 C E eq_refl).
+Qed.
+Print Assumptions gen_arrange_fresh_hb.
+
+(* non-vacuity: blkSize 1 (8 blocks per segment), one segment in a 9-byte array;
+   two allocations, a release, an allocation that takes the released block *)
+Example gen_ex_alloc :
+  let g0 := Gen.mk_Blocks 1 8 1 0 0 8 in
+  let h0 : heap := [[0; 0; 0; 0; 0; 0; 0; 0; 0]] in
+  match Gen.Blocks_ArrangeBlock (hb_Buffer 0) g0 h0 with
+  | Ok ((g1, i1, e1), h1) =>
+      i1 = 0 /\ e1 = ENil /\ h1 = [[1; 0; 0; 0; 0; 0; 0; 0; 0]] /\
+      match Gen.Blocks_ArrangeBlock (hb_Buffer 0) g1 h1 with
+      | Ok ((g2, i2, e2), h2) =>
+          i2 = 1 /\ h2 = [[3; 0; 0; 0; 0; 0; 0; 0; 0]] /\ Gen.Blocks_available g2 = 6 /\
+          match Gen.Blocks_FreeBlock (hb_Buffer 0) g2 0 h2 with
+          | Ok ((g3, e3), h3) =>
+              e3 = ENil /\ h3 = [[2; 0; 0; 0; 0; 0; 0; 0; 0]] /\
+              match Gen.Blocks_ArrangeBlock (hb_Buffer 0) g3 h3 with
+              | Ok ((g4, i4, e4), h4) => i4 = 0 /\ h4 = [[3; 0; 0; 0; 0; 0; 0; 0; 0]]
+              | _ => False end
+          | _ => False end
+      | _ => False end
+  | _ => False
+  end.
+Proof. vm_compute. repeat split; reflexivity. Qed.
+
